@@ -4,3 +4,5 @@ package main
 
 
 
+
+func rulesGrdPkg(c *Ctx, r *Report, rels []string, floor int) {}
